@@ -1,7 +1,7 @@
 #!/bin/sh
-# tools/runall.sh <tier> <ids...>  -> logs under /tmp/vf-logs
+# tools/runall.sh <tier> <ids...>  -> logs under /tmp/vf-logs (exploratory runs: evidence goes to $VF_EVIDENCE_DIR if set)
 mkdir -p /tmp/vf-logs
 tier=$1; shift
 for id in "$@"; do
-  ( /usr/bin/time -f "%e s" ./check $id --tier $tier > /tmp/vf-logs/$id.$tier.log 2>&1; echo "EXIT $?" >> /tmp/vf-logs/$id.$tier.log )
+  ( /usr/bin/time -f "%e s" ./check $id --tier $tier > /tmp/vf-logs/$id.$tier.s${VERIF_SEED:-0}.log 2>&1; echo "EXIT $?" >> /tmp/vf-logs/$id.$tier.s${VERIF_SEED:-0}.log )
 done
